@@ -134,7 +134,8 @@ def guarded (env : Env) (s : Srv) (n : Name) (failMsg : Bytes) (call : Unit → 
     (fl : Flags) : Except Exc (Srv × Bytes) :=
   match env.fault n with
   | some mro =>
-    if catches Gen.ReceivePack.allExceptions mro then .ok (s, failMsg)
+    if catches Gen.ReceivePack.lockCatches mro then .ok (s, Gen.ReceivePack.failedLockMsg)   -- `except FileLocked:` (if any)
+    else if catches Gen.ReceivePack.allExceptions mro then .ok (s, failMsg)
     else if catches Gen.ReceivePack.badRefCatches mro then .ok (s, Gen.ReceivePack.badRefMsg)
     else .error .refError
   | none =>
